@@ -13,8 +13,8 @@ def _E():
 # ------------------------------------------------------------------ exact rationals (replay)
 class Exact(Fraction):
   """Concrete time value used when a counterexample is replayed: exact rational arithmetic in
-  which float constants of the code (0.01, 0.1, ...) mean their decimal value, exactly as the
-  symbolic encoding reads them (assumption A2: time over exact reals)."""
+  which a float constant of the code (0.01, 0.1, ...) means the real number that float is (its exact
+  binary value), exactly as the symbolic encoding reads it (assumption A2: operations are exact)."""
   __slots__ = ()
 
   @staticmethod
@@ -22,7 +22,7 @@ class Exact(Fraction):
     if isinstance(x, Exact): return x
     if isinstance(x, float):
       if x == float('inf') or x == float('-inf') or x != x: return x
-      return Exact(Fraction(repr(x)))
+      return Exact(Fraction(x))
     if isinstance(x, (int, Fraction)): return Exact(x)
     return NotImplemented
 
@@ -275,7 +275,7 @@ def lift_real(x):
   if isinstance(x, SymInt): return z3.ToReal(x.e)
   if isinstance(x, bool): return z3.RealVal(int(x))
   if isinstance(x, int): return z3.RealVal(x)
-  if isinstance(x, float): return z3.RealVal(repr(x))
+  if isinstance(x, float): return z3.RealVal(str(Fraction(x)))
   if isinstance(x, Fraction): return z3.RealVal(str(Fraction(x)))
   raise TypeError('lift_real %r' % type(x))
 
